@@ -20,9 +20,11 @@ def tore_table():
     return t
 
 
-def batch_description(padded=False):
+def batch_description(padded=False, species=None):
     """Index structure of a batch as Parser.forward would produce it (proved for the real parser in C05/C19 tasks)."""
-    if not padded:
+    if species is not None:
+        species = [list(r) for r in species]
+    elif not padded:
         species = [[8, 1], [1, 1]]
     else:
         species = [[8, 1, 1], [1, 1, 0]]
@@ -46,13 +48,13 @@ def batch_description(padded=False):
     # mask / maskd: block indices into the (nmol*molsize*molsize) block list
     d.maskd = st.tensor([m * molsize * molsize + i * molsize + i for m, i, _ in flat])
     d.mask = st.tensor([flat[a][0] * molsize * molsize + flat[a][1] * molsize + flat[b][1] for a, b in pairs])
-    d.nocc = st.tensor([4, 1]) if not padded else st.tensor([4, 1])
-    d.norb = st.tensor([5, 2]) if not padded else st.tensor([6, 2])
+    d.norb = st.tensor([sum(4 if z > 1 else 1 for z in row if z > 0) for row in species])
+    d.nocc = st.tensor([max(1, sum({8: 6, 7: 5, 6: 4, 1: 1}[z] for z in row if z > 0) // 2) for row in species])
     return d
 
 
-def ghost_es_molecule(padded=False, prefix=""):
-    d = batch_description(padded)
+def ghost_es_molecule(padded=False, prefix="", species=None):
+    d = batch_description(padded, species)
     mol = Obj()
     for k, v in d.__dict__.items():
         setattr(mol, k, v)
